@@ -5,7 +5,7 @@ V = os.path.dirname(os.path.dirname(os.path.abspath(__file__)))
 
 CLAIMED = {
  "C05": dict(
-    text="Coq theorems (C05_bounded, C05_ds_bounded, C05_exact_when_fits and the ident/path variants) over a path-by-path model of "
+    text="Coq theorems (C05_bounded, C05_ds_bounded, C05_exact_when_fits and the ident/path variants, C05_full_is_documented, C05_error_markers: every error text is bracketed \"[ERROR: ...]\") over a path-by-path model of "
          "message.c/string.c for ALL formats, registries and limits, instantiated with constants regenerated from the source on every run; "
          "the hand-written model is tied to the code by a differential run of its extraction against snoopy_message_generateFromFormat "
          "built from the working tree under ASan+UBSan on boundary-directed formats, and the extracted spec is evaluated on every implementation output.",
@@ -18,7 +18,7 @@ CLAIMED = {
     text="Coq theorems over the exec wrappers' bodies regenerated from clang's AST on every run (T2): for every world, every behaviour of "
          "every callee and of the real function, the wrapper calls the real execv/execve exactly once, last, with its own parameters, and returns its result "
          "(C01_execve_once_last, C01_execv_once_last); the library's whole external call set and every indirect call site are regenerated (nm -u, AST) and "
-         "proved free of exec-family, non-returning and unknown indirect calls. Tied and searched by a system-level correspondence: production libsnoopy.so from the "
+         "proved free of exec-family, non-returning, static-result (getpwuid, strtok, localtime, ... : C01_no_shared_static_results) and unknown indirect calls (the wrappers' final call is identified by where its pointer comes from: dlsym of the wrapper's own name). Tied and searched by a system-level correspondence: production libsnoopy.so from the "
          "working tree preloaded into a scripted caller with a recording 'real exec' behind it (pointer identity, deep content, ret/errno, call count, nothing written after return).",
     ref="DESIGN.md section 7 C01",
     note="Trusted: Coq kernel + vm_compute; vlib/skel.py (clang AST -> skeleton); nm; harness (tool_caller, librecorder). The skeleton semantics treats named callees as arbitrary "
@@ -27,7 +27,7 @@ CLAIMED = {
 
  "C06": dict(
     text="Coq theorems for the running-offset loop of cmdline.c (C06_cmdline_join: equals the first size-1 bytes of the space-joined argv for EVERY argv and size; "
-         "C06_fallback, C06_filename, C06_fits) and for the input-data life cycle over ALL call histories in both build variants (C06_no_leftover, C06_record_is_own), "
+         "C06_fallback, C06_both_missing, C06_filename, C06_fits) and for the input-data life cycle over ALL call histories in both build variants (C06_no_leftover, C06_record_is_own), "
          "the life-cycle facts being computed from skeletons regenerated from clang's AST; tied by function-level differential runs (ASan+UBSan) and by histories of "
          "2..30 calls in one process through the production wrapper in thread-safe and non-thread-safe builds.",
     ref="DESIGN.md section 7 C06",
@@ -37,7 +37,7 @@ CLAIMED = {
  "C04": dict(
     text="Coq theorems over the output/dispatch/action model with constants (modes, flags, printf formats) regenerated from src/output/*.c and the action/dispatch "
          "skeletons regenerated from clang's AST: C04_one_record (exactly one record, at the configured sink, equal to the documented frame, for every message, output, "
-         "argument, ident, priority, pid), C04_devlog_frame, C04_none_when_dropped/_empty, C04_at_most_one; with error logging on, C04_error_records (exactly n1+n2 separate whole framed records of the error text - one per refused append while the message resp. the output's own path/ident template was formatted, Expand.Errors - followed by the ONE record of the message), C04_fits_no_error_record, C04_error_logging_off. Tied by a system-level correspondence in which the harness owns "
+         "argument, ident, priority, pid), C04_devlog_frame, C04_fixed_destinations, C04_none_when_dropped/_empty, C04_at_most_one; with error logging on, C04_error_records (exactly n1+n2 separate whole framed records of the error text - one per refused append while the message resp. the output's own path/ident template was formatted, Expand.Errors - followed by the ONE record of the message), C04_fits_no_error_record, C04_error_logging_off. Tied by a system-level correspondence in which the harness owns "
          "all seven sinks and the recorder drains them at exec entry (also with a simulated successful exec), compared with the extracted models' prediction.",
     ref="DESIGN.md section 7 C04",
     note="Trusted: Coq kernel + vm_compute; tr_output/tr_expand/skel translators; extraction + drivers; harness. Assumes the sink accepts the operations (C03 covers failures); "
